@@ -34,7 +34,7 @@ CYCLES = ("pipe-open-close pipe-roundtrip pipe-drop unix-socket spawn-wait spawn
           "spawn-drop execute thread-call thread-async-chan chan-go-give-take chan-cancelled-waiter select-abandon "
           "read-timeout deadline-no-fire deadline-fire go-error-supervisor spawn-finish file-open-close file-drop "
           "parser-peg sleep lock spawn-err-pipe spawn-all-pipes thread-call-cancelled thread-call-deadline "
-          "proc-wait-cancelled read-cancelled write-cancelled sleep-cancelled").split()
+          "proc-wait-cancelled read-cancelled write-cancelled sleep-cancelled connect-refused connect-accept-tcp").split()
 FIELDS = ["fds", "children", "threads", "root-count", "block-count", "tq-count", "listener-count"]
 
 # ------------------------------------------------------------------ termination programs
@@ -94,6 +94,19 @@ def program(tasks, link, main_waits):
     return "\n".join(lines) + "\n", sorted(expect)
 
 
+def burst_program(n, kind):
+    """n tasks whose completions (thread calls / subprocess waits) all arrive while the main fiber is busy,
+    so that n self-pipe events are pending at one wakeup of the loop"""
+    op = SOLO["T"] if kind == "thread" else SOLO["P"]
+    lines = ["(def fibs @[])"]
+    for i in range(n):
+        lines.append("(array/push fibs (ev/go (fn [] %s (print \"done %d\"))))" % (op, i))
+    lines.append("(ev/sleep 0)")
+    lines.append("(var acc 0) (for i 0 3000000 (+= acc i))   # busy: completions queue up")
+    lines.append("(print \"main returns\")")
+    return "\n".join(lines) + "\n", sorted(["done %d" % i for i in range(n)] + ["main returns"])
+
+
 def seqs(maxlen, letters):
     out = [""]
     for n in range(1, maxlen + 1):
@@ -121,6 +134,9 @@ def term_programs(quick):
             for c in (three if not quick else ["", "S", "T", "P"]):
                 for link in ("none", "chan", "cancel"):
                     progs.append(([a, b, c], link, False))
+    for n in (2, 8, 9, 16, 24):
+        for kind in ("thread", "proc"):
+            progs.append(([str(n)], "burst", kind))
     return progs
 
 
@@ -131,7 +147,10 @@ def run_term(chk):
 
     def one(idx_prog):
         idx, (tasks, link, mw) = idx_prog
-        src, expect = program(tasks, link, mw)
+        if link == "burst":
+            src, expect = burst_program(int(tasks[0]), mw)
+        else:
+            src, expect = program(tasks, link, mw)
         path = os.path.join(tmp, "p%d.janet" % idx)
         with open(path, "w") as f:
             f.write(src)
@@ -155,7 +174,12 @@ def run_term(chk):
     progs = progs[:len(results)]
     for (tasks, link, mw), r in zip(progs, results):
         chk.add(evaluations=1, transitions=1, states=1)
-        src, expect = program(tasks, link, mw)
+        if link == "burst":
+            src, expect = burst_program(int(tasks[0]), mw)
+            tasks = ["%s-x%s" % (mw, tasks[0])]
+            mw = False
+        else:
+            src, expect = program(tasks, link, mw)
         got = sorted(l for l in r.out.decode(errors="replace").split("\n") if l)
         shape = "%s/link=%s" % ("+".join(t or "-" for t in tasks), link)
         chk.outcome((tuple(sorted(set("".join(tasks)))), link, len(tasks)))
